@@ -1,6 +1,7 @@
 """C10 Incompressibility is enforced and preserved."""
 from __future__ import annotations
 
+import os
 import shutil
 
 import numpy as np
@@ -105,6 +106,16 @@ def run(tier: str, seed: int) -> int:
     run_.rule = ("TLC: LerayOK (divergence-free, idempotent, identity on solenoidal fields and on the mean) and Rot3dOK on every basis sum; conformance: "
                  "projector cases (D, N, draw), dense rot3d outputs, monitored 5-step rollouts per (class, N, order, parameters) validated by TLC")
     run_.assumptions = ["spectral divergence measured with the library's derivative operator (bound by C05/C04)", "Nyquist-free fields for the projectors, as the property states"]
+    # ---- default (float32) session: the same public calls on the same inputs in a float32 child process
+    from .. import xsession as _xs
+    import numpy as _np
+    _rng = _np.random.default_rng(seed + 77)
+    _cases = []
+    for _D, _N in ((2, 8), (2, 9), (3, 6), (3, 5)):
+        _u = _rng.standard_normal((_D,) + (_N,) * _D)
+        _cases.append(dict(id=f"make_incompressible/{_D}/{_N}", name="make_incompressible", args=[_u], kw={}))
+        _cases.append(dict(id=f"leray/{_D}/{_N}", name="leray", args=[_u], kw=dict(L=2.0)))
+    _xs.compare(run_, PID, _cases, os.path.join(tlc.SCRATCH, f"c10xs.{os.getpid()}"))
     # the composed machine (spec/Session.tla): multi-step API sessions generated by TLC -simulate, replayed call by call; this check
     # reports the mismatches of the operations it owns (leray)
     if tier != "quick":
